@@ -11,6 +11,7 @@ import (
 	"encoding/hex"
 	"encoding/json"
 	"fmt"
+	"os"
 	"reflect"
 	"sort"
 
@@ -25,7 +26,13 @@ import (
 
 type C = vh.Ctx
 
-func main() { vh.Main("desc", run) }
+func main() {
+	if os.Getenv("VERIF_DESC_EXITPROBE") == "1" {
+		exitProbeChild()
+		return
+	}
+	vh.Main("desc", run)
+}
 
 func run(c *C) {
 	switch c.Prop {
@@ -173,3 +180,13 @@ func errClass(err error, panicked any) string {
 func jsonUnmarshal(s string, v any) error { return json.Unmarshal([]byte(s), v) }
 func vhHex(b []byte) string                { return vh.Hex(b) }
 func vhUnHex(s string) []byte              { return vh.UnHex(s) }
+
+// lazyA is a replay input (kind "aschema") whose JSON is produced only when a failure is written out.
+type lazyA struct {
+	a            *AFile
+	note, expect string
+}
+
+func (l lazyA) MarshalJSON() ([]byte, error) {
+	return json.Marshal(replayIn{Kind: "aschema", FDP: mustJSON(l.a), Note: l.note, Expect: l.expect})
+}
